@@ -1258,7 +1258,7 @@ impl Server {
         // Log to AOF for write commands
         if let Some(aof) = &self.aof_engine {
             if self.is_write_command(&command_name) {
-                if let Err(e) = aof.append_command(parts) {
+                if let Err(e) = aof.append_command_in_db(db, parts) {
                     eprintln!("Failed to append to AOF: {}", e);
                 }
             }
